@@ -147,7 +147,11 @@ def live_drops(ctx, body, pred):
                 ty = a["place"]["ty"] if a["k"] != "const" else a["ty"]
                 tt = ctx.facts.types.get(ty)
                 inner = tt["ty"] if tt and tt["k"] in ("ref", "ptr") else ty
-                if owns(ctx.facts, inner, pred) or (tt and "MaybeUninit" in ty and ctx.facts.type_mentions(ty, lambda x, c: pred(x))):
+                # assume_init_drop / drop_in_place *of the element* release what a MaybeUninit holds; dropping a container of
+                # MaybeUninit<T> (mem::drop, Drop terminator) releases no T
+                releases_mu = not callee_matches(fn, r"core::mem::drop$") and tt and "MaybeUninit" in ty and \
+                    ctx.facts.type_mentions(ty, lambda x, c: pred(x))
+                if owns(ctx.facts, inner, pred) or releases_mu:
                     out.append((bb, a.get("place"), fn["def"].split("::")[-1]))
     return out
 
